@@ -4,6 +4,9 @@ import Blue.Proofs.Conserve
 import Blue.Proofs.CompactCut
 import Blue.Proofs.Compaction
 import Blue.Proofs.ConstsTieC05
+import Blue.Proofs.GcExact
+import Blue.Proofs.CompactTables
+import Blue.Proofs.CompactEntry
 /-! # Property C05 — compaction conserves every version; GC discards only what policy permits
 
 Property theorems only (helper lemmas live in `Blue/Proofs/{Gc,GcPolicy,Conserve,CompactCut,
@@ -19,7 +22,21 @@ Models (all executable, all run by the driver against the real crates):
   the merged run into output files.
 
 An input `Ent K` is `(key, timestamp, is-tombstone)`; the collector's output is the list of
-retained `(key, timestamp)`s. -/
+retained `(key, timestamp)`s.
+
+Reading guide.  *Theorems with content*: `gc_runs*`, `gc_factors_through_decisions`, `any_is_union`,
+`all_is_intersection`, `newest_value_kept*`, `key_keeps_head_or_goes`, `retained_is_prefix`,
+`default_policy_exact`, `only_tombstones_dropped`; `merged_is_M`, `merged_is_sorted_union`,
+`pipeline_conserves*`, `pipeline_reads_unchanged`.  *Upper bound only*: `gc_output_sublist` (the
+collector that retains nothing meets it too).  *Model facts / list lemmas* (no cursor in them; kept
+because other statements cite them): `children_perm_merged`, `cut_flatten`, `compaction_conserves`
+— the "inputs" there are *defined* as the owner-filters of `M`.
+
+What there is no theorem for (claim text `partial`): a declarative specification of the policy
+language (`ttl`, `any`, `all`; `versions = N` for `N > 1`) independent of the loop — the oracle's
+definitional reading is the only specification; that GC runs only at the last level; the write
+side of a GC (discard setsum); the multi-builder's cut points; that the policy parser's result is
+well formed (`Policy.WF`) and that its fuel suffices. -/
 namespace Blue.Props.C05
 open Blue.Gc Blue.Cursor
 
@@ -43,7 +60,9 @@ theorem gc_runs_every_policy {K : Type} [DecidableEq K] (p : Policy) (hp : p.WF)
   gcP_runs p hp now k0 gs hr
 
 /-- GC removes only: the output is a sub-list of the input, for every policy and every input
-    (sorted or not) -/
+    (sorted or not).  An UPPER bound: `[]` meets it.  The two-sided statements are
+    `default_policy_exact` (versions = 1), `retained_is_prefix` + `key_keeps_head_or_goes` (every
+    policy: which prefix), `newest_value_kept*`. -/
 theorem gc_output_sublist {K : Type} [DecidableEq K] (p : Policy) (now : Nat) (k0 : Option K)
     (m : List (Ent K)) : (gcP p now k0 m).Sublist (ents m) := gcP_sublist p now k0 m
 
@@ -73,15 +92,19 @@ theorem newest_value_kept {K : Type} [DecidableEq K] (n : Nat) (hn : 1 ≤ n) (k
 
 /-- never the entry that decides the current value of a key, for every policy that selects newest
     versions: `versions`; `ttl_micros = m` at `now ≤ m` (lsmtk: `now = 0`, O-3); `any` with such
-    a member; `all` of such members -/
+    a member; `all` of such members.  RESTRICTION (`hp`): it does not hold for every policy —
+    `any()` and an expired `ttl_micros` let current values go (example `gcP (.any []) … = []` below);
+    the property's "never the current value" is therefore proved under `selectsNewest` only. -/
 theorem newest_value_kept_every_policy {K : Type} [DecidableEq K] (p : Policy) (now : Nat)
     (hp : p.selectsNewest now = true) (e : Ent K) (g : List (Ent K)) (he : e.tomb = false) :
     ∃ out, gcLoopD (e :: g) e.key [] (p.det now none) = (e.key, e.ts) :: out :=
   newest_value_kept_policy p now hp e g he
 
-/-- a key whose newest version is a tombstone stays deleted: whatever is kept for it starts with
-    one of its leading tombstones, or nothing at all is kept (tombstone and everything it shadows
-    go together) -/
+/-- a key whose newest version is a tombstone stays deleted: whatever is kept for it starts with a
+    tombstone of the key, or nothing at all is kept.  As stated the tombstone is any one of `tombs`
+    or of `g` (the statement does not say "leading"); the sharp form — the *oldest of the tombstones
+    above the newest value* — is `key_keeps_head_or_goes` (`emit k (lead.map ts) v.ts`), which holds
+    for every policy. -/
 theorem tombstone_stays {K : Type} [DecidableEq K] (n : Nat) (k : K) (g : List (Ent K)) (tombs : List Nat)
     (h : tombs ≠ []) :
     gcGroup n k g tombs 0 = [] ∨
@@ -106,14 +129,16 @@ theorem only_tombstones_dropped {K : Type} [DecidableEq K] (g : List (Ent K))
     (h : ∀ e ∈ g, e.tomb = true) (kb : K) (tombs : List Nat) (d : Det K) :
     gcLoopD g kb tombs d = [] := Blue.Gc.only_tombstones_dropped g h kb tombs d
 
-/-- observation O-3: every `collector(cursor, now)` call of lsmtk passes `now = 0` (regenerated
-    from the source each run), and at `now = 0` a `ttl_micros` determiner retains whatever it is
+/-- observation O-3: every `collector(cursor, now)` call of lsmtk — there are two: the store's and the
+    verifier's, so the extracted list is not empty and the ∀ is not vacuous — passes `now = 0`
+    (regenerated from the source each run), and at `now = 0` a `ttl_micros` determiner retains whatever it is
     asked about: in this store a ttl policy never expires anything -/
 theorem ttl_inert_in_lsmtk {K : Type} [DecidableEq K] :
-    (∀ n ∈ Blue.Generated.lsmtkCollectorNow, n = 0)
+    Blue.Generated.lsmtkCollectorNow.length = 2
+      ∧ (∀ n ∈ Blue.Generated.lsmtkCollectorNow, n = 0)
       ∧ ∀ (m : Nat) (k0 : Option K) (k : K) (tombs : List Nat) (ts : Nat),
           (((Policy.expires m).det 0 k0 : Det K).retain k tombs ts).1 = true :=
-  ⟨Blue.ConstsTie.lsmtk_collector_now, fun m k0 k tombs ts => expires_now0 m k0 k tombs ts⟩
+  ⟨by decide, Blue.ConstsTie.lsmtk_collector_now, fun m k0 k tombs ts => expires_now0 m k0 k tombs ts⟩
 
 /-- the keywords and error contexts of the parser model are those of sst/src/gc.rs, and lsmtk's
     default policy parses to `versions = 1` (regenerated from the source each run) -/
@@ -128,19 +153,37 @@ theorem policy_language_from_source :
 theorem gcGroup_exhausted {K : Type} [DecidableEq K] (n : Nat) (k : K) (g : List (Ent K)) (tombs : List Nat) (c : Nat)
     (h : n ≤ c) : gcGroup n k g tombs c = [] := Blue.Gc.gcGroup_exhausted n k g tombs c h
 
+/-- **lsmtk's default policy `versions = 1`, exact and independent of the loop**: per key, the newest
+    version if it is a value; nothing if it is a tombstone -/
+theorem default_policy_exact {K : Type} [DecidableEq K] (k : K) (e : Ent K) (g : List (Ent K)) :
+    gcGroup 1 k (e :: g) [] 0 = if e.tomb then [] else [(k, e.ts)] :=
+  Blue.Gc.default_policy_exact k e g
+
+/-- **per key the retained set is a prefix, for every policy**: over one key's versions newest first
+    the output is what the determiner's decisions select among the key's values (`callsOf`: each
+    value with the tombstones directly above it), and the decisions read `true … true false … false` -/
+theorem retained_is_prefix {K : Type} [DecidableEq K] (k : K) (g : List (Ent K)) (hall : AllKey k g)
+    (hts : g.Pairwise (fun a b => b.ts < a.ts)) (d : Det K) :
+    gcLoopD g k [] d = emitAll (callsOf g k []) (d.run (callsOf g k []))
+      ∧ ∀ i j, i ≤ j → (d.run (callsOf g k [])).getD j false = true →
+          (d.run (callsOf g k [])).getD i false = true :=
+  Blue.Gc.retained_is_prefix k g hall hts d
+
 /-! ## a compaction that is not a garbage collection -/
 
-/-- the union of the input tables is the merged list, up to order -/
+/-- LIST LEMMA (no cursor in it; the "input tables" are *defined* as the owner-filters of `M`):
+    the owner-filters of a tagged list, concatenated, are a permutation of the list -/
 theorem children_perm_merged {E : Type} (k : Nat) (M : List (E × Nat)) (h : ∀ x ∈ M, x.2 < k) :
     (((List.range k).map (childList M)).flatten).Perm (M.map (·.1)) :=
   Blue.Cursor.children_perm_merged k M h
 
-/-- cutting a run at any cut points and concatenating gives it back -/
+/-- LIST LEMMA (`take`/`drop`): cutting a run at any cut points and concatenating gives it back -/
 theorem cut_flatten {E : Type} (ns : List Nat) (l : List E) : (cut ns l).flatten = l :=
   Blue.Cursor.cut_flatten ns l
 
-/-- whatever the cut vector (every target/minimum file size, every split hint), the output files
-    hold a permutation of the union of the inputs -/
+/-- LIST LEMMA (the two above composed; the "inputs" are the owner-filters of `M`, the "outputs" the
+    cut of `M` — the merging cursor enters only through `merged_is_M` / `merged_is_sorted_union`):
+    whatever the cut vector, the pieces hold a permutation of the owner-filters -/
 theorem compaction_conserves {E : Type} (k : Nat) (M : List (E × Nat)) (h : ∀ x ∈ M, x.2 < k)
     (cuts : List Nat) :
     ((cut cuts (M.map (·.1))).flatten).Perm (((List.range k).map (childList M)).flatten) :=
@@ -159,7 +202,78 @@ theorem pipeline_conserves {E : Type} {lt : E → E → Bool} {M : List (E × Na
     ((Blue.Compact.cut cuts (Blue.Compact.merged lt tables)).flatten).Perm tables.flatten :=
   Blue.Compact.pipeline_conserves st fam tables ht cuts
 
-/-- … so a read at any timestamp still sees what it saw before -/
+/-- **every family of input tables has its `M`**: for ANY strictly sorted tables without a common
+    entry there is an owner-tagged strictly sorted `M` whose children are exactly the tables — the
+    hypotheses `fam`, `ht` of `merged_is_M` / `pipeline_conserves` can always be met -/
+theorem family_of_tables {E : Type} {lt : E → E → Bool} (st : StrictTotal lt) (tables : List (List E))
+    (hs : ∀ t ∈ tables, t.Pairwise (fun a b => lt a b = true)) (hnd : tables.flatten.Nodup) :
+    ∃ M, Family lt M tables.length ∧ (List.range tables.length).map (childList M) = tables :=
+  exists_family st tables hs hnd
+
+/-- the compaction loop over the merging-cursor model, for ANY strictly sorted input tables (the same
+    entry may be in several), no `M` in the statement: it reads `mergedList`, which is a permutation
+    of the inputs' entries in which no entry precedes a smaller one -/
+theorem merged_is_sorted_union {E : Type} {lt : E → E → Bool} (st : StrictTotal lt) (tables : List (List E))
+    (hs : ∀ t ∈ tables, t.Pairwise (fun a b => lt a b = true)) :
+    Blue.Compact.merged lt tables = mergedList lt tables
+      ∧ (mergedList lt tables).Perm tables.flatten
+      ∧ (mergedList lt tables).Pairwise (fun a b => lt b a = false) :=
+  ⟨Blue.Compact.merged_eq_tables st tables hs, mergedList_perm lt tables, mergedList_sortedW st tables⟩
+
+/-- **conservation without `M`**: ANY strictly sorted input tables, ANY cut vector -/
+theorem pipeline_conserves_tables {E : Type} {lt : E → E → Bool} (st : StrictTotal lt) (tables : List (List E))
+    (hs : ∀ t ∈ tables, t.Pairwise (fun a b => lt a b = true)) (cuts : List Nat) :
+    ((Blue.Compact.cut cuts (Blue.Compact.merged lt tables)).flatten).Perm tables.flatten :=
+  Blue.Compact.pipeline_conserves_tables st tables hs cuts
+
+/-- the comparator of the code (`KeyRef::cmp` = `entryLt`: key, then timestamp; the value is not
+    compared) is NOT a strict total order on the model's entry type … -/
+theorem entryLt_not_strictTotal : ¬ StrictTotal Blue.Compact.entryLt := Blue.Compact.entryLt_not_strictTotal
+
+/-- … its lexicographic extension by the value is … -/
+theorem entryLtFull_strictTotal : StrictTotal Blue.Compact.entryLtFull := Blue.Compact.entryLtFull_strictTotal
+
+/-- … the two agree on inputs whose `(key, timestamp)` pairs identify the entries, and the
+    merging-cursor model compares nothing else: the run under the code's comparator -/
+theorem merged_entries (tables : List (List Blue.Compact.Entry))
+    (hs : ∀ t ∈ tables, t.Pairwise (fun a b => Blue.Compact.entryLt a b = true))
+    (hu : Blue.Compact.KeyTsUnique tables.flatten) :
+    Blue.Compact.merged Blue.Compact.entryLt tables = mergedList Blue.Compact.entryLtFull tables :=
+  Blue.Compact.merged_entries tables hs hu
+
+/-- **conservation at the model's OWN entry type and comparator** — the function the driver runs
+    against `MergingCursor` + `SstMultiBuilder`, `cut cuts (merged entryLt tables)`: for ANY input
+    tables sorted by `entryLt` with unique `(key, timestamp)`s and ANY cut vector the pieces are a
+    permutation of the inputs (keys, timestamps, values and tombstones, with multiplicity) and their
+    concatenation is sorted -/
+theorem pipeline_conserves_entries (tables : List (List Blue.Compact.Entry))
+    (hs : ∀ t ∈ tables, t.Pairwise (fun a b => Blue.Compact.entryLt a b = true))
+    (hu : Blue.Compact.KeyTsUnique tables.flatten) (cuts : List Nat) :
+    ((Blue.Compact.cut cuts (Blue.Compact.merged Blue.Compact.entryLt tables)).flatten).Perm tables.flatten
+      ∧ ((Blue.Compact.cut cuts (Blue.Compact.merged Blue.Compact.entryLt tables)).flatten).Pairwise
+          (fun a b => Blue.Compact.entryLt b a = false) :=
+  ⟨Blue.Compact.pipeline_conserves_entries tables hs hu cuts,
+   Blue.Compact.pipeline_sorted_entries tables hs hu cuts⟩
+
+/-- **conservation ⇒ unchanged reads, as one theorem**: the store's components in search order
+    (`pre ++ post`, "newer above"), a *closed* selection of inputs, each input strictly sorted.
+    Replace the inputs by the pieces of the merging-cursor model's merged run cut at ANY cut vector:
+    every point read, at every key and timestamp, is unchanged.  (Versions are `(key, timestamp)`
+    here — C01's read model; `hsame` and `houts` of `compaction_reads_unchanged` are DERIVED from
+    `pipeline_conserves_tables` and the sortedness of the merged run; `Closed` remains a
+    hypothesis — it is the selector's obligation, C01 `nextCompaction_closed`.) -/
+theorem pipeline_reads_unchanged {K : Type} [DecidableEq K] {klt : K → K → Bool} (st : StrictTotal klt)
+    (pre : Blue.Spec.Tagged K) (post : List (List (Blue.Spec.Ver K)))
+    (h : Blue.Spec.NewerAbove (pre.map (·.2) ++ post)) (hclosed : Blue.Spec.Closed pre)
+    (hs : ∀ c ∈ Blue.Spec.inputs pre, Blue.Spec.Sorted klt c) (cuts : List Nat) (k : K) (t : Nat) :
+    Blue.Spec.load (Blue.Spec.kept pre
+        ++ Blue.Compact.cut cuts (Blue.Compact.merged (Blue.Spec.vlt klt) (Blue.Spec.inputs pre)) ++ post) k t
+      = Blue.Spec.load (pre.map (·.2) ++ post) k t :=
+  Blue.Spec.pipeline_reads_unchanged st pre post h hclosed hs cuts k t
+
+/-- the list-level statement `pipeline_reads_unchanged` is built on: for ANY outputs with the
+    inputs' versions that are "newer above" among themselves, reads are unchanged (C01
+    `step_compaction_reads`).  `hsame`, `houts`, `hclosed` are hypotheses here. -/
 theorem compaction_reads_unchanged {K : Type} [DecidableEq K] (pre : Blue.Spec.Tagged K)
     (post outs : List (List (Blue.Spec.Ver K)))
     (h : Blue.Spec.NewerAbove (pre.map (·.2) ++ post)) (hclosed : Blue.Spec.Closed pre)
@@ -221,18 +335,63 @@ example : Family (fun a b : Nat => decide (a < b)) [(10, 0), (20, 1), (30, 0)] 2
 example : Blue.Compact.cut [1, 2] (Blue.Compact.merged (fun a b : Nat => decide (a < b)) [[10, 30], [20]])
     = [[10], [20, 30], []] := by decide
 
-/-- hypotheses of `compaction_reads_unchanged`: two input components with two versions of key 7,
-    one output file -/
-example : Blue.Spec.NewerAbove ([(true, [((7 : Nat), 5)]), (true, [(7, 3)])].map (·.2) ++ [])
-    ∧ Blue.Spec.Closed [(true, [((7 : Nat), 5)]), (true, [(7, 3)])]
-    ∧ (∀ e, e ∈ [[((7 : Nat), 5), (7, 3)]].flatten ↔
-        e ∈ (Blue.Spec.inputs [(true, [((7 : Nat), 5)]), (true, [(7, 3)])]).flatten)
-    ∧ Blue.Spec.NewerAbove [[((7 : Nat), 5), (7, 3)]] := by
-  refine ⟨?_, ?_, ?_, ?_⟩
-  · simp [Blue.Spec.NewerAbove]
-  · simp [Blue.Spec.Closed]
+/-- hypotheses of `compaction_reads_unchanged` on an instance where `Closed` has content: a kept
+    component above the inputs, a kept component BETWEEN the two inputs (`[3@1]`, sharing no key with
+    them), a component below (`post`), two output files with key 7 and key 8 split across them -/
+example :
+    let pre : Blue.Spec.Tagged Nat :=
+      [(false, [(9, 8), (7, 9)]), (true, [(7, 5), (8, 6)]), (false, [(3, 1)]), (true, [(7, 3), (8, 2)])]
+    let post : List (List (Blue.Spec.Ver Nat)) := [[(7, 1), (3, 0)]]
+    let outs : List (List (Blue.Spec.Ver Nat)) := [[(7, 5), (7, 3)], [(8, 6), (8, 2)]]
+    Blue.Spec.NewerAbove (pre.map (·.2) ++ post) ∧ Blue.Spec.Closed pre
+      ∧ (∀ e, e ∈ outs.flatten ↔ e ∈ (Blue.Spec.inputs pre).flatten) ∧ Blue.Spec.NewerAbove outs := by
+  refine ⟨by decide, ?_, ?_, by decide⟩
+  · simp [Blue.Spec.Closed, Blue.Spec.SharesKey]; omega
   · intro e; simp [Blue.Spec.inputs]
-  · simp [Blue.Spec.NewerAbove]
+    constructor <;> (intro h; rcases h with h | h | h | h <;> simp [h])
+
+/-- `pipeline_reads_unchanged` on the same store, the outputs now COMPUTED by the pipeline model
+    (cut after two entries): `[[7@5, 7@3], [8@6, 8@2]]` -/
+def preX : Blue.Spec.Tagged Nat :=
+  [(false, [(9, 8), (7, 9)]), (true, [(7, 5), (8, 6)]), (false, [(3, 1)]), (true, [(7, 3), (8, 2)])]
+
+def natLt (a b : Nat) : Bool := decide (a < b)
+theorem natLt_strictTotal : StrictTotal natLt :=
+  ⟨by intro a; simp [natLt], by intro a b c; simp [natLt]; omega, by intro a b; simp [natLt]; omega⟩
+
+example : Blue.Compact.cut [2] (Blue.Compact.merged (Blue.Spec.vlt natLt) (Blue.Spec.inputs preX))
+    = [[(7, 5), (7, 3)], [(8, 6), (8, 2)]] := by decide
+
+example (k t : Nat) :
+    Blue.Spec.load (Blue.Spec.kept preX
+        ++ Blue.Compact.cut [2] (Blue.Compact.merged (Blue.Spec.vlt natLt) (Blue.Spec.inputs preX)) ++ [[(7, 1), (3, 0)]]) k t
+      = Blue.Spec.load (preX.map (·.2) ++ [[(7, 1), (3, 0)]]) k t :=
+  pipeline_reads_unchanged natLt_strictTotal preX [[(7, 1), (3, 0)]] (by decide)
+    (by simp [preX, Blue.Spec.Closed, Blue.Spec.SharesKey]; omega)
+    (by intro c hc
+        simp only [preX, Blue.Spec.inputs, List.filter, List.map, List.mem_cons, List.not_mem_nil, or_false] at hc
+        rcases hc with rfl | rfl <;> (unfold Blue.Spec.Sorted; decide))
+    [2] k t
+
+/-- `pipeline_conserves_entries` at the model's own entry type: two tables sharing key `[1]` (three
+    versions, one a tombstone) and holding values; hypotheses by evaluation -/
+def tabA : List Blue.Compact.Entry := [⟨[1], 9, some [7]⟩, ⟨[1], 4, none⟩, ⟨[2, 0], 5, some []⟩]
+def tabB : List Blue.Compact.Entry := [⟨[1], 6, some [8, 8]⟩, ⟨[2], 3, some [1]⟩]
+
+theorem tabs_sorted : ∀ t ∈ [tabA, tabB], t.Pairwise (fun a b => Blue.Compact.entryLt a b = true) := by decide
+theorem tabs_unique : Blue.Compact.KeyTsUnique [tabA, tabB].flatten := by
+  unfold Blue.Compact.KeyTsUnique; decide
+
+example : Blue.Compact.cut [2, 2] (Blue.Compact.merged Blue.Compact.entryLt [tabA, tabB])
+    = [[⟨[1], 9, some [7]⟩, ⟨[1], 6, some [8, 8]⟩], [⟨[1], 4, none⟩, ⟨[2], 3, some [1]⟩], [⟨[2, 0], 5, some []⟩]] := by
+  decide
+
+example : ((Blue.Compact.cut [2, 2] (Blue.Compact.merged Blue.Compact.entryLt [tabA, tabB])).flatten).Perm
+    [tabA, tabB].flatten := (pipeline_conserves_entries [tabA, tabB] tabs_sorted tabs_unique [2, 2]).1
+
+/-- `family_of_tables` produces the `M` the old examples wrote by hand -/
+example : ∃ M, Family natLt M 2 ∧ (List.range 2).map (childList M) = [[10, 30], [20]] :=
+  family_of_tables natLt_strictTotal [[10, 30], [20]] (by decide) (by decide)
 
 end Blue.Props.C05
 
@@ -247,6 +406,8 @@ end Blue.Props.C05
 #print axioms Blue.Props.C05.newest_value_kept_every_policy
 #print axioms Blue.Props.C05.tombstone_stays
 #print axioms Blue.Props.C05.gcGroup_exhausted
+#print axioms Blue.Props.C05.default_policy_exact
+#print axioms Blue.Props.C05.retained_is_prefix
 #print axioms Blue.Props.C05.key_keeps_head_or_goes
 #print axioms Blue.Props.C05.only_tombstones_dropped
 #print axioms Blue.Props.C05.ttl_inert_in_lsmtk
@@ -256,5 +417,13 @@ end Blue.Props.C05
 #print axioms Blue.Props.C05.compaction_conserves
 #print axioms Blue.Props.C05.merged_is_M
 #print axioms Blue.Props.C05.pipeline_conserves
+#print axioms Blue.Props.C05.family_of_tables
+#print axioms Blue.Props.C05.merged_is_sorted_union
+#print axioms Blue.Props.C05.pipeline_conserves_tables
+#print axioms Blue.Props.C05.entryLt_not_strictTotal
+#print axioms Blue.Props.C05.entryLtFull_strictTotal
+#print axioms Blue.Props.C05.merged_entries
+#print axioms Blue.Props.C05.pipeline_conserves_entries
+#print axioms Blue.Props.C05.pipeline_reads_unchanged
 #print axioms Blue.Props.C05.compaction_reads_unchanged
 #print axioms Blue.Props.C05.gc_preserves_newer_above
